@@ -109,6 +109,10 @@ def cluster_scripts():
         # a stale handle that keeps trying after it was rejected (the deliberate marker is broken by the lock library)
         {"id": "k10", "modern": True, "scripts": [H("n1", "load", "jsonly", "jsonly", "update", "jsonly"), H("n2", "loadp", "jsonly", "jsonly", "demote")]},
         {"id": "k11", "modern": True, "scripts": [H("n1", "load", "cancel", "cancel", "update", "promote"), H("n2", "loadp", "update", "demote"), H("n2", "loadp", "demote")]},
+        # the holder sets the completion flag and demotes afterwards (JobSubmitter._handle_completion, then the caller's
+        # `finally`): others try for the role in between -- fresh handles and a handle loaded before
+        {"id": "k12", "scripts": [H("n1", "loadp", "update", "complete", "demote"), H("n2", "loadp", "update", "demote"), H("n3", "load", "promote", "demote")]},
+        {"id": "k13", "scripts": [H("n1", "loadp", "complete", "update", "demote"), H("n2", "loadp", "demote"), H("n1", "loadp", "cancel", "demote")]},
         {"id": "k9", "modern": True, "scripts": [H("n1", "load", "cancel", "promote"), H("n1", "loadp", "demote!1"), H("n1", "loadp", "jsonly!1"), H("n1", "load", "jsonly")]},
     ]
 
